@@ -62,6 +62,7 @@ def run_shard(prop, tier, seed, shard, nshards, out):
     """Executed in the shard subprocess."""
     from rv.core import Ctx
     ctx = Ctx(prop, tier, seed, shard, nshards)
+    ctx.ambient = getattr(load_module(prop), 'AMBIENT', None)
     result = {'fatal': None}
     try:
         import bitstring
@@ -297,6 +298,7 @@ def do_replay(prop, path):
     sys.path.insert(0, REPO)
     mod = load_module(prop)
     ctx = Ctx(prop, 'quick', 0)
+    ctx.ambient = getattr(load_module(prop), 'AMBIENT', None)
     ctx.replaying = True
     from rv import sentinels
     if getattr(mod, 'SENTINELS', True):
